@@ -1,0 +1,16 @@
+//go:build verif
+
+package fail
+
+// VerifFail, when set by a simulation harness, is called at every Fail() site instead of
+// the FAIL_TEST_INDEX logic; it may crash the simulated node. Only compiled with the
+// build tag "verif".
+var VerifFail func()
+
+func verifFail() bool {
+	if VerifFail != nil {
+		VerifFail()
+		return true
+	}
+	return false
+}
